@@ -2,7 +2,7 @@ package rules
 
 func init() {
 	register("C12", Meta{
-		Explanation: "Static analysis of the restorer's synthetic position space: the cursor only moves forward (reset once, ++, += len(...)/Length); every position written into the ast is the cursor or NoPos (or a parameter that receives the cursor at every call site); every token stores its position before advancing by its own length; every line-table entry is int(cursor)-base (+ byte index inside a ranged text) and is followed by a cursor advance; the comment list is append-only; RestoreFile takes the base before the cursor starts, registers the file after the tree is restored with a size that covers the cursor, and checks SetLines; positions and children are written in go/ast's declaration (= source) order. Decides monotonicity, containment and line-table order for all trees; rank equality with a re-parse of go/printer's output is not decided.",
+		Explanation: "Static analysis of the restorer's synthetic position space: the cursor only moves forward (reset once, ++, += len(...)/Length); every position written into the ast is the cursor or NoPos (or a parameter that receives the cursor at every call site); every token stores its position before advancing by its own length; every line-table entry is int(cursor)-base (+ byte index inside a ranged text) and is followed by a cursor advance; the comment list is append-only; RestoreFile takes the base before the cursor starts, registers the file after the tree is restored with a size that covers the cursor, and checks SetLines; positions and children are written in go/ast's declaration (= source) order. Decides monotonicity, containment and line-table order for all trees; rank equality with a re-parse of go/printer's output is not decided. File.FileStart/FileEnd are the base and base+size of the registered file (values resolved through helper parameters); fileSize is raised over the comment list and the line table; inside a text a line start is recorded for exactly its newline characters, in a reachable loop; every per-file collection of the FileRestorer is reset for every file, and a buffer that was handed out is never truncated and reused.",
 		NotCovered:  []string{"rank equality with a fresh parse of the printed text (goes through go/printer)"},
 	}, func(e *Env) {
 		e.RCursor(true)
